@@ -47,6 +47,7 @@ def check(rep: Report, ctx: Ctx) -> None:
     r46(rep, ctx)
     r47(rep, ctx)
     r48(rep, ctx)
+    r49(rep, ctx)
 
 
 def r47(rep: Report, ctx: Ctx) -> None:
@@ -723,3 +724,30 @@ def r48(rep: Report, ctx: Ctx) -> None:
              "is l up to order; accumulation and removal work on whole "
              "observations", 8)
     check_table(rep, ctx, "R4.8", MODEL_TABLE, list(MODEL_TABLE))
+
+
+def r49(rep: Report, ctx: Ctx) -> None:
+    """The model is a dictionary of mutable Event objects that learning
+    updates IN PLACE.  A memoised producer hands the same objects to every
+    caller: the second update of "the file's model" starts from what the
+    first update left behind (chunk 1 + 2 + 3 instead of 1 + 3)."""
+    rep.rule("R4.9", "no memoised function returns model objects (they are "
+             "updated in place by learning)", 0)
+    MUTABLE = ("dict", "list", "set", "Event", "EventSet", "DiGraph",
+               "ProcessTree", "Node", "PUMLGraph")
+    n = 0
+    for fi in ctx.index.all_functions():
+        memo = [d for d in fi.decorators if "cache" in d.lower()]
+        if not memo:
+            continue
+        n += 1
+        ann = unparse(fi.node.returns) if fi.node.returns is not None else ""
+        shared = [t for t in MUTABLE if t in ann] or (
+            [] if ann else ["<unannotated>"])
+        rep.ob("R4.9", f"{fi.name} (@{memo[0]}) returns immutable values "
+               "only", not shared, fi=fi, node=fi.node,
+               detail=f"return type '{ann}'" + (
+                   f": {shared} objects are shared between all callers with "
+                   "the same arguments and mutated by the first" if shared
+                   else ""))
+    rep.analysed["memoised_functions"] = n
